@@ -26,6 +26,8 @@ pub enum Pk {
         code: u8,
         recv_max: Option<u16>,
         alias_max: Option<u16>,
+        /// MQTT 5 server keep-alive.
+        ska: Option<u16>,
     },
     Publish {
         dup: bool,
@@ -85,7 +87,12 @@ impl Pk {
                 code,
                 recv_max,
                 alias_max,
-            } => format!("CONNACK(sp={},code={code},rm={recv_max:?},am={alias_max:?})", *sp as u8),
+                ska,
+            } => format!(
+                "CONNACK(sp={},code={code},rm={recv_max:?},am={alias_max:?}{})",
+                *sp as u8,
+                ska.map_or(String::new(), |k| format!(",server_keep_alive={k}"))
+            ),
             Pk::Publish {
                 dup,
                 qos,
@@ -166,6 +173,7 @@ pub fn from_v4(p: &p4::Packet) -> Pk {
             code: if c.code == p4::ConnectReturnCode::Success { 0 } else { 1 },
             recv_max: None,
             alias_max: None,
+            ska: None,
         },
         p4::Packet::Publish(p) => from_v4_publish(p),
         p4::Packet::PubAck(a) => Pk::PubAck { pkid: a.pkid, reason: 0 },
@@ -275,6 +283,7 @@ pub fn from_v5(p: &p5::Packet) -> Pk {
             code: if c.code == p5::ConnectReturnCode::Success { 0 } else { 1 },
             recv_max: c.properties.as_ref().and_then(|p| p.receive_max),
             alias_max: c.properties.as_ref().and_then(|p| p.topic_alias_max),
+            ska: c.properties.as_ref().and_then(|p| p.server_keep_alive),
         },
         p5::Packet::Publish(p) => from_v5_publish(p),
         p5::Packet::PubAck(a) => Pk::PubAck {
@@ -339,8 +348,9 @@ pub fn to_v5(p: &Pk) -> Option<p5::Packet> {
             code,
             recv_max,
             alias_max,
+            ska,
         } => {
-            let props = if recv_max.is_some() || alias_max.is_some() {
+            let props = if recv_max.is_some() || alias_max.is_some() || ska.is_some() {
                 Some(p5::ConnAckProperties {
                     session_expiry_interval: None,
                     receive_max: *recv_max,
@@ -354,7 +364,7 @@ pub fn to_v5(p: &Pk) -> Option<p5::Packet> {
                     wildcard_subscription_available: None,
                     subscription_identifiers_available: None,
                     shared_subscription_available: None,
-                    server_keep_alive: None,
+                    server_keep_alive: *ska,
                     response_information: None,
                     server_reference: None,
                     authentication_method: None,
